@@ -199,6 +199,22 @@ CLAIMED = {
         'technique': 'Lean 4 proof over tables regenerated from the source + differential execution in four modes',
         'design_ref': '§5 C18',
     },
+    'C05': {
+        'text': ('Lean theorems: where out_structure comes from for every class (square family = in_structure, duals, '
+                 'composites, stored, abstract evaluation) is re-checked against the source table; the Level-A structure '
+                 'functions the driver executes give composition = last.in/first.out, sums and block row/column/diagonal the '
+                 'nested structures of their parts, duals the swapped ones, sizes additive over blocks; products built by the '
+                 'dunders and chains rewritten by reduce() keep their typing; kernel output shapes (ravel/reshape sizes, '
+                 'move-axis permutation) and the promotion join are theorems of C13/C20.  The model\'s structures and sizes are '
+                 'compared with the real ones on random expressions over float32/float64/mixed pytrees in both 64-bit modes; '
+                 'jax.eval_shape(mv) = out_structure(), sizes, promoted dtypes, transposes and reduced operators are checked on '
+                 'the implementation.'),
+        'note': ('Trusted: Lean kernel + standard axioms; jax.eval_shape as the reference for what mv returns; leaves report '
+                 'their declared structures to the model (their honesty is the oracle part). Claimed for parameters no wider '
+                 'than the data dtype, as the property states.'),
+        'technique': 'Lean 4 proof (Level-A structure rules, table theorems) + differential correspondence + eval_shape oracle',
+        'design_ref': '§5 C05',
+    },
     'C06': {
         'text': ('PARTIAL (solver convergence).  Lean theorems: which function `inverse` resolves to for every class is '
                  're-checked against the source table; the form model gives A.I.I = A for every lazy-inverse wrapper and '
